@@ -425,7 +425,7 @@ ASSUME = ['NaN/inf floats, user classes with custom __eq__/__hash__/__bool__, ca
 def main(argv):
     return run_check('C05', [OpsStream(), RegexStream(), IpStream(), RulesStream(), RuleSequenceStream()], argv,
                      trusted_base=TRUSTED, assumptions=ASSUME,
-                     translated=('pin_rules', 'pin_util'))
+                     translated=('rules', 'rules_on_generated', 'pin_rules', 'pin_util'))
 
 
 if __name__ == '__main__':
